@@ -371,6 +371,21 @@ for _h, _fn, _can in (("pd_addSolutionPath", "ProblemDefinition::addSolutionPath
     UNITS.append(dict(name="c01_" + _h, template="C01/pdef.c", mode="plain", entry="h_" + _h, sources=PDEF_SRC, needs=[_h], flags=["--bounds-check", "--pointer-check"], unwind=5, level="proof" if "add" in _h else "bounded", bound="" if "add" in _h else "<= 3 start states",
                       backend="minisat", timeout=300, functions=["ompl::base::" + _fn], canaries=_can))
 
+# geometric::PDST::solve: the flag / status logic (same template as control::PDST in C02; geometric rule variants)
+def _pdst_unit():
+    if _REENTRANT:
+        return []
+    sp = importlib.util.spec_from_file_location("c02p", os.path.join(os.path.dirname(__file__), "C02.py")); m = importlib.util.module_from_spec(sp); sp.loader.exec_module(m)
+    S_ = re.S
+    rules = [(r"unsigned ndim = projectionEvaluator_->getDimension\(\);", "", 0), (r"Eigen::VectorXd tmpProj\(ndim\);", "", 0), (r"addMotion\(newMotion, bsp_, tmpState1, tmpProj\);", "", 0),
+             (r"Cell \*cellSelected = motionSelected->cell_;.*?addMotion\(motion, cellSelected, tmpState1, tmpProj\);", "", 0, S_),
+             (r"auto path\(std::make_shared<PathGeometric>\(si_\)\);.*?(?=pdef_->addSolutionPath)", "", 0, S_)] + list(m.PDST_RULES)
+    return [dict(name="c01_pdst_solve_flags", template="C02/pdst.c", mode="plain", entry="h_pdst", defines={"PROPAGATE_NEVER_FAILS": 1}, flags=["--bounds-check", "--pointer-check", "--signed-overflow-check", "--conversion-check"], unwind=7, level="bounded",
+                 bound="<= 2 iterations of the planning loop after an arbitrary earlier result", backend="minisat", timeout=600, functions=["ompl::geometric::PDST::solve (flag and status logic; growth, subdivision and path vector behind stubs)"],
+                 sources=[dict(name="solve", file="src/ompl/geometric/planners/pdst/src/PDST.cpp", begin=r"double distanceToGoal, closestDistanceToGoal = std::numeric_limits<double>::infinity\(\);", end=r"\}\s*ompl::geometric::PDST::Motion \*ompl::geometric::PDST::propagateFrom", rules=rules, loops={"allow_uncontracted": True})],
+                 canaries=[dict(name="closer_motion_not_recorded", where="body:solve", rx=r"(if \(distanceToGoal < closestDistanceToGoal\)\s*\{\s*closestDistanceToGoal = distanceToGoal;)\s*lastGoalMotion_ = newMotion;", repl=r"\1")])]
+UNITS += _pdst_unit()
+
 # roadmap planners: a new problem definition forgets the old query's start/goal milestones (otherwise the old query's path is reported for the new one) -- units of C03
 def _c03_query_units():
     sp = importlib.util.spec_from_file_location("c03q", os.path.join(os.path.dirname(__file__), "C03.py")); m = importlib.util.module_from_spec(sp)
